@@ -129,7 +129,7 @@ class Events:
         return hashlib.sha256(json.dumps(self.log, sort_keys=True, default=str).encode()).hexdigest()
 
 
-FAULTABLE = {"walk", "open_data", "open_in", "open_out", "write", "flush", "close", "stdout_write", "stdout_flush", "remove", "rename", "replace"}
+FAULTABLE = {"walk", "open_data", "open_out", "write", "flush", "close", "stdout_write", "stdout_flush", "remove", "rename", "replace"}
 
 
 # =============================================================================
@@ -470,9 +470,7 @@ class SimFS:
             self.open_files.append(sf)
             self.ev.after(idx)
             return sf
-        idx, f = self.ev.point("open_in", rel, None)
-        if f is not None and f["kind"] in ("error", "short"):
-            raise _oserror(f.get("errno", "EIO"), path)          # transient read error on an input file
+        idx, _ = self.ev.point("open_in", rel, None)
         fobj = _o.open(path, mode, buffering, encoding, errors, newline, closefd, opener)
         self.ev.after(idx)
         return fobj
